@@ -65,10 +65,17 @@ def gen_session(rnd, root, tier, allow_threads=True):
         go = f"ponder depth {rnd.randint(1, 5)}"
     else:
         go = "infinite"
+    stop_after = rnd.choice([0.0, 0.01, 0.05, 0.15])
+    if root.get("cat") == "tbroot":
+        # unlimited search on a pawnless root of at most four men: the engine first builds a tablebase inside the hash table (needs
+        # Hash >= 8) and then extends its mate lines from it; the search is stopped half a second after its first pv line
+        kind, go, stop_after = "infinite", "infinite", "pv"
+        o["Hash"] = rnd.choice([16, 64])
+        o.pop("MaxNPS", None); o.pop("UCI_LimitStrength", None); o.pop("UCI_Elo", None); o.pop("Strength", None)
     return {"options": o, "go": go, "kind": kind, "use_hist": rnd.random() < 0.5,
             # an earlier search in the same process that was restricted to one root move of ANOTHER position: nothing of it may leak
             "prior_searchmoves": rnd.random() < 0.25, "ponder_end": rnd.choice(["stop", "ponderhit"]),
-            "net": rnd.choice(NETS), "searchmoves": rnd.random() < (0.8 if root.get("cat") == "promo" else 0.25), "stop_after": rnd.choice([0.0, 0.01, 0.05, 0.15])}
+            "net": rnd.choice(NETS), "searchmoves": rnd.random() < (0.8 if root.get("cat") == "promo" else 0.25) and root.get("cat") != "tbroot", "stop_after": stop_after}
 
 
 def run_session(bdir, root, s, rnd_seed, timeout=90, extra_env=None):
@@ -121,7 +128,12 @@ def run_session(bdir, root, s, rnd_seed, timeout=90, extra_env=None):
                    "searchmoves": [uci.uci_to_mv(m, wtm_root) for m in smoves],
                    "multipv": int(s["options"].get("MultiPV", 1)), "go": go, "options": s["options"], "net": s["net"]})
         eng.send(go)
-        if s["kind"] == "infinite":
+        prelines = []
+        if s["kind"] == "infinite" and s["stop_after"] == "pv":
+            prelines, _ = eng.read_until(lambda l: l.startswith("info depth") and " pv " in l, 40)
+            time.sleep(0.5)
+            eng.send("stop")
+        elif s["kind"] == "infinite":
             time.sleep(s["stop_after"])
             eng.send("stop")
         elif s["kind"] == "ponder":
@@ -130,6 +142,7 @@ def run_session(bdir, root, s, rnd_seed, timeout=90, extra_env=None):
         # Searches throttled by strength options (MaxNPS 2000, UCI_Elo -625, ...) or slowed down by a loaded machine may need minutes for a
         # depth limit: after a grace period the driver sends 'stop' (as a GUI user would) - the answer must be well-formed all the same.
         lines, ok = eng.read_until(lambda l: l.startswith("bestmove"), 12)
+        lines = prelines + lines
         if not ok:
             eng.send("stop")
             more, ok = eng.read_until(lambda l: l.startswith("bestmove"), timeout)
